@@ -129,10 +129,8 @@ def pyIntDigits : Str → Bool → Bool
 
 def pyInt (s : Str) : Option Int :=
   let s := stripWs s
-  let (neg, body) := match s with
-    | '-' :: r => (true, r)
-    | '+' :: r => (false, r)
-    | r => (false, r)
+  let neg := s.head? == some '-'
+  let body := if s.head? == some '-' || s.head? == some '+' then s.drop 1 else s
   if body.isEmpty || !pyIntDigits body false then Option.none
   else
     let n := natOfDigits (body.filter (· ≠ '_'))
@@ -255,9 +253,15 @@ def slash : Str := ['/']
 /-- `"[" ++ s ++ "]"` -/
 def bracket (s : Str) : Str := '[' :: s ++ [']']
 
+/-- `s.replace("][", "]/[")`: non-overlapping, left to right -/
+def fixBr : Str → Str
+  | ']' :: '[' :: rest => ']' :: '/' :: '[' :: fixBr rest
+  | c :: rest => c :: fixBr rest
+  | [] => []
+
 /-- tokenisation of a string xpath: `replace("][","]/[")`, split on '/', drop empties, strip -/
 def tokenize (s : Str) : List Str :=
-  ((splitChar '/' (replace "][".toList "]/[".toList s)).filter (fun t => !t.isEmpty)).map stripWs
+  ((splitChar '/' (fixBr s)).filter (fun t => !t.isEmpty)).map stripWs
 
 /-- `isinstance(parent_node, (list, tuple))` -/
 def isList : Val → Bool
